@@ -1,4 +1,715 @@
+(** C35 — proofs about the message-queue transition system [model/M_C35.v]. *)
 From Coq Require Import List ZArith Bool NArith Lia.
 From V Require Import lib.Verdict model.M_C34 model.M_C35.
 Import ListNotations.
 Open Scope Z_scope.
+
+(** ---------- maps / sets ---------- *)
+Section ZP.
+  Context {V : Type}.
+  Implicit Types (l : list (Z * V)).
+
+  Lemma zget_zdel_same : forall l k, zget k (zdel k l) = None.
+  Proof.
+    induction l as [|[k0 v0] r IH]; intro k; cbn [zdel zget]; [reflexivity|].
+    destruct (k =? k0) eqn:E; [apply IH|]. cbn [zget]. rewrite E. apply IH.
+  Qed.
+  Lemma zget_zdel_other : forall l k k', k <> k' -> zget k' (zdel k l) = zget k' l.
+  Proof.
+    induction l as [|[k0 v0] r IH]; intros k k' HN; cbn [zdel zget]; [reflexivity|].
+    destruct (k =? k0) eqn:E.
+    - apply Z.eqb_eq in E. subst k0. assert (E2 : k' =? k = false) by (apply Z.eqb_neq; congruence).
+      rewrite E2. apply IH. exact HN.
+    - cbn [zget]. destruct (k' =? k0); [reflexivity | apply IH; exact HN].
+  Qed.
+  Lemma zget_zset_same : forall l k v, zget k (zset k v l) = Some v.
+  Proof. intros. unfold zset. cbn [zget]. rewrite Z.eqb_refl. reflexivity. Qed.
+  Lemma zget_zset_other : forall l k k' v, k <> k' -> zget k' (zset k v l) = zget k' l.
+  Proof.
+    intros l k k' v HN. unfold zset. cbn [zget].
+    assert (E : k' =? k = false) by (apply Z.eqb_neq; congruence). rewrite E.
+    apply zget_zdel_other. exact HN.
+  Qed.
+End ZP.
+
+Lemma smem_srem_same : forall s k, smem k (srem k s) = false.
+Proof.
+  induction s as [|x r IH]; intro k; cbn [srem filter smem existsb]; [reflexivity|].
+  destruct (k =? x) eqn:E; cbn [negb]; [apply IH|]. cbn [existsb]. rewrite E. apply IH.
+Qed.
+Lemma smem_srem_other : forall s k k', k <> k' -> smem k' (srem k s) = smem k' s.
+Proof.
+  induction s as [|x r IH]; intros k k' HN; cbn [srem filter smem existsb]; [reflexivity|].
+  destruct (k =? x) eqn:E; cbn [negb].
+  - apply Z.eqb_eq in E. subst x. assert (E2 : k' =? k = false) by (apply Z.eqb_neq; congruence).
+    rewrite E2. cbn [orb]. apply IH. exact HN.
+  - cbn [existsb]. f_equal. apply IH. exact HN.
+Qed.
+Lemma smem_sadd_same : forall s k, smem k (sadd k s) = true.
+Proof.
+  intros s k. unfold sadd. destruct (smem k s) eqn:E; [exact E|]. cbn [smem existsb]. rewrite Z.eqb_refl. reflexivity.
+Qed.
+Lemma smem_sadd_other : forall s k k', k <> k' -> smem k' (sadd k s) = smem k' s.
+Proof.
+  intros s k k' HN. unfold sadd. destruct (smem k s); [reflexivity|]. cbn [smem existsb].
+  assert (E : k' =? k = false) by (apply Z.eqb_neq; congruence). rewrite E. reflexivity.
+Qed.
+
+(** ---------- wantlist ---------- *)
+Definition wtype (l : wl) (c : Z) : option Z := match zget c l with Some (_, t) => Some t | None => None end.
+
+Lemma zhas_wtype : forall (l : wl) c, zhas c l = match wtype l c with Some _ => true | None => false end.
+Proof. intros. unfold zhas, wtype. destruct (zget c l) as [[p t]|]; reflexivity. Qed.
+
+Lemma wtype_add_same : forall l c p t,
+  wtype (wl_add c p t l) c =
+  match wtype l c with
+  | Some t0 => if (t0 =? TBlock) || (t =? THave) then Some t0 else Some t
+  | None => Some t
+  end.
+Proof.
+  intros l c p t. unfold wtype, wl_add. destruct (zget c l) as [[p0 t0]|] eqn:E.
+  - destruct ((t0 =? TBlock) || (t =? THave)); [rewrite E; reflexivity | rewrite zget_zset_same; reflexivity].
+  - rewrite zget_zset_same. reflexivity.
+Qed.
+Lemma wtype_add_other : forall l c c' p t, c <> c' -> wtype (wl_add c p t l) c' = wtype l c'.
+Proof.
+  intros l c c' p t HN. unfold wtype, wl_add. destruct (zget c l) as [[p0 t0]|].
+  - destruct ((t0 =? TBlock) || (t =? THave)); [reflexivity | rewrite zget_zset_other by exact HN; reflexivity].
+  - rewrite zget_zset_other by exact HN. reflexivity.
+Qed.
+Lemma wtype_del_same : forall (l : wl) c, wtype (zdel c l) c = None.
+Proof. intros. unfold wtype. rewrite zget_zdel_same. reflexivity. Qed.
+Lemma wtype_del_other : forall (l : wl) c c', c <> c' -> wtype (zdel c l) c' = wtype l c'.
+Proof. intros. unfold wtype. rewrite zget_zdel_other by assumption. reflexivity. Qed.
+
+Lemma remtype_spec : forall l c t,
+  match wtype l c with
+  | None => wl_remtype c t l = (l, false)
+  | Some t0 => if (t0 =? TBlock) && (t =? THave) then wl_remtype c t l = (l, false)
+               else wl_remtype c t l = (zdel c l, true)
+  end.
+Proof.
+  intros l c t. unfold wtype, wl_remtype. destruct (zget c l) as [[p0 t0]|]; [|reflexivity].
+  destruct ((t0 =? TBlock) && (t =? THave)); reflexivity.
+Qed.
+
+(** ---------- the send step of the fixed model as a run of single-item steps ---------- *)
+Section Micro.
+  Variable sh : bool.
+
+  Definition fc (c : Z) : mentry := (c, (0, TBlock, true, false)).
+  Definition fp (e : Z * went) : mentry := (fst e, (fst (snd e), snd (snd e), false, true)).
+  Definition fb (e : Z * went) : mentry := (fst e, (fst (snd e), bcst_type sh, false, false)).
+
+  Definition mc (s : st) (c : Z) : st :=
+    if smem c (cn s) then
+      mkst (pp s) (ps s) (bp s) (bs s) (srem c (cn s)) (prio s) (zdel c (r_wl s)) (g_wp s) (g_wb s)
+    else s.
+  Definition mp (s : st) (e : Z * went) : st :=
+    let '(c, (p, t)) := e in
+    let (pend1, ok) := wl_remtype c t (pp s) in
+    if ok then mkst pend1 (wl_add c p t (ps s)) (bp s) (bs s) (cn s) (prio s) (wl_add c p t (r_wl s)) (g_wp s) (g_wb s)
+    else s.
+  Definition mb (s : st) (e : Z * went) : st :=
+    let '(c, (p, t)) := e in
+    let (pend1, ok) := wl_remtype c t (bp s) in
+    if ok then mkst (pp s) (ps s) pend1 (wl_add c p t (bs s)) (cn s) (prio s) (wl_add c p (bcst_type sh) (r_wl s)) (g_wp s) (g_wb s)
+    else s.
+
+  Lemma deliver_app : forall r a b, deliver r (a ++ b) = deliver (deliver r a) b.
+  Proof. intros. unfold deliver. apply fold_left_app. Qed.
+
+  Lemma remtype_fail_same : forall c t l l', wl_remtype c t l = (l', false) -> l' = l.
+  Proof.
+    intros c t l l'. unfold wl_remtype. destruct (zget c l) as [[p0 t0]|]; [|congruence].
+    destruct ((t0 =? TBlock) && (t =? THave)); congruence.
+  Qed.
+
+  Lemma mc_fold : forall cs s,
+    let '(cn1, okc, _) := mark_cancels cs (cn s) in
+    fold_left mc cs s =
+    mkst (pp s) (ps s) (bp s) (bs s) cn1 (prio s) (deliver (r_wl s) (map fc okc)) (g_wp s) (g_wb s).
+  Proof.
+    induction cs as [|c r IH]; intro s; cbn [mark_cancels fold_left].
+    - cbn [map deliver fold_left]. destruct s; reflexivity.
+    - unfold mc at 2. destruct (smem c (cn s)) eqn:E.
+      + specialize (IH (mkst (pp s) (ps s) (bp s) (bs s) (srem c (cn s)) (prio s) (zdel c (r_wl s)) (g_wp s) (g_wb s))).
+        cbn [pp ps bp bs cn prio r_wl g_wp g_wb] in IH.
+        destruct (mark_cancels r (srem c (cn s))) as [[cn2 oks] bad]. rewrite IH. reflexivity.
+      + specialize (IH s). destruct (mark_cancels r (cn s)) as [[cn2 oks] bad]. exact IH.
+  Qed.
+
+  Lemma mp_fold : forall es s,
+    let '(pp1, ps1, okp, _) := mark es (pp s) (ps s) in
+    fold_left mp es s =
+    mkst pp1 ps1 (bp s) (bs s) (cn s) (prio s) (deliver (r_wl s) (map fp okp)) (g_wp s) (g_wb s).
+  Proof.
+    induction es as [|[c [p t]] r IH]; intro s; cbn [mark fold_left].
+    - cbn [map deliver fold_left]. destruct s; reflexivity.
+    - unfold mp at 2. destruct (wl_remtype c t (pp s)) as [pend1 ok] eqn:E. destruct ok.
+      + specialize (IH (mkst pend1 (wl_add c p t (ps s)) (bp s) (bs s) (cn s) (prio s) (wl_add c p t (r_wl s)) (g_wp s) (g_wb s))).
+        cbn [pp ps bp bs cn prio r_wl g_wp g_wb] in IH.
+        destruct (mark r pend1 (wl_add c p t (ps s))) as [[[pp2 ps2] oks] bad]. rewrite IH. reflexivity.
+      + apply remtype_fail_same in E. subst pend1. specialize (IH s).
+        destruct (mark r (pp s) (ps s)) as [[[pp2 ps2] oks] bad]. exact IH.
+  Qed.
+
+  Lemma mb_fold : forall es s,
+    let '(bp1, bs1, okb, _) := mark es (bp s) (bs s) in
+    fold_left mb es s =
+    mkst (pp s) (ps s) bp1 bs1 (cn s) (prio s) (deliver (r_wl s) (map fb okb)) (g_wp s) (g_wb s).
+  Proof.
+    induction es as [|[c [p t]] r IH]; intro s; cbn [mark fold_left].
+    - cbn [map deliver fold_left]. destruct s; reflexivity.
+    - unfold mb at 2. destruct (wl_remtype c t (bp s)) as [pend1 ok] eqn:E. destruct ok.
+      + specialize (IH (mkst (pp s) (ps s) pend1 (wl_add c p t (bs s)) (cn s) (prio s) (wl_add c p (bcst_type sh) (r_wl s)) (g_wp s) (g_wb s))).
+        cbn [pp ps bp bs cn prio r_wl g_wp g_wb] in IH.
+        destruct (mark r pend1 (wl_add c p t (bs s))) as [[[bp2 bs2] oks] bad]. rewrite IH. reflexivity.
+      + apply remtype_fail_same in E. subst pend1. specialize (IH s).
+        destruct (mark r (bp s) (bs s)) as [[[bp2 bs2] oks] bad]. exact IH.
+  Qed.
+
+  Lemma send_fixed_micro : forall cs pes bes s,
+    fst (send_result fixed_flags sh cs pes bes s) =
+    fold_left mb bes (fold_left mp pes (fold_left mc cs s)).
+  Proof.
+    intros cs pes bes s. unfold send_result.
+    pose proof (mc_fold cs s) as HC.
+    destruct (mark_cancels cs (cn s)) as [[cn1 okc] badc]. rewrite HC. clear HC.
+    set (s1 := mkst (pp s) (ps s) (bp s) (bs s) cn1 (prio s) (deliver (r_wl s) (map fc okc)) (g_wp s) (g_wb s)).
+    pose proof (mp_fold pes s1) as HP. cbn [pp ps s1] in HP.
+    destruct (mark pes (pp s) (ps s)) as [[[pp1 ps1] okp] badp]. rewrite HP. clear HP.
+    cbn [bp bs cn prio r_wl g_wp g_wb s1].
+    set (s2 := mkst pp1 ps1 (bp s) (bs s) cn1 (prio s) (deliver (deliver (r_wl s) (map fc okc)) (map fp okp)) (g_wp s) (g_wb s)).
+    pose proof (mb_fold bes s2) as HB. cbn [bp bs s2] in HB.
+    destruct (mark bes (bp s) (bs s)) as [[[bp1 bs1] okb] badb]. rewrite HB. clear HB.
+    cbn [fst pp ps cn prio r_wl g_wp g_wb s2]. unfold build_msg. cbn [f_merge fixed_flags].
+    rewrite !deliver_app. reflexivity.
+  Qed.
+End Micro.
+
+(** ---------- the coupling invariant, CID by CID, over a finite abstraction ---------- *)
+Inductive ty := TN | TB | TH.            (* absent / want-block / any other type *)
+Definition abs (o : option Z) : ty :=
+  match o with None => TN | Some t => if t =? TBlock then TB else TH end.
+Definition nz (x : ty) : bool := match x with TN => false | _ => true end.
+Definition isB (x : ty) : bool := match x with TB => true | _ => false end.
+
+(** for one CID: [r] the peer's entry, [pp ps bp bs] the four client lists, [cn] cancel queued,
+    [wp] wanted per-peer (ghost), [wb] wanted by broadcast (ghost) *)
+Definition invb (sh : bool) (r pp ps bp bs : ty) (cn : bool) (wp : ty) (wb : bool) : bool :=
+  implb (nz r) (nz wp || wb || cn) &&
+  implb (sh && nz wp) (nz r || nz pp) &&
+  implb wb (nz r || nz bp) &&
+  implb (nz pp || nz ps) (nz wp) &&
+  implb (nz bp || nz bs) wb &&
+  implb cn (negb (nz wp) && negb wb) &&
+  implb (isB wp) (isB r || isB pp).
+
+Definition a_add (old : ty) (tb : bool) : ty :=
+  match old with TB => TB | _ => if tb then TB else TH end.
+Definition a_rem (old : ty) (th : bool) : ty * bool :=
+  match old with TN => (TN, false) | TB => if th then (TB, false) else (TN, true) | TH => (TN, true) end.
+
+Definition all3 (P : ty -> bool) : bool := P TN && P TB && P TH.
+Definition all2 (P : bool -> bool) : bool := P true && P false.
+Lemma all3_ok : forall P, all3 P = true -> forall x, P x = true.
+Proof. intros P HH x. unfold all3 in HH. apply andb_true_iff in HH. destruct HH as [HH H3].
+  apply andb_true_iff in HH. destruct HH as [H1 H2]. destruct x; assumption. Qed.
+Lemma all2_ok : forall P, all2 P = true -> forall x, P x = true.
+Proof. intros P HH x. unfold all2 in HH. apply andb_true_iff in HH. destruct HH as [H1 H2]. destruct x; assumption. Qed.
+
+Definition chk (P : bool -> ty -> ty -> ty -> ty -> ty -> bool -> ty -> bool -> bool) : bool :=
+  all2 (fun sh => all3 (fun r => all3 (fun pp => all3 (fun ps => all3 (fun bp => all3 (fun bs =>
+  all2 (fun cn => all3 (fun wp => all2 (fun wb => P sh r pp ps bp bs cn wp wb))))))))).
+Lemma chk_ok : forall P, chk P = true -> forall sh r pp ps bp bs cn wp wb, P sh r pp ps bp bs cn wp wb = true.
+Proof.
+  intros P HH sh r pp ps bp bs cn wp wb. unfold chk in HH.
+  pose proof (all2_ok _ HH sh) as H1. cbv beta in H1.
+  pose proof (all3_ok _ H1 r) as H2. cbv beta in H2.
+  pose proof (all3_ok _ H2 pp) as H3. cbv beta in H3.
+  pose proof (all3_ok _ H3 ps) as H4. cbv beta in H4.
+  pose proof (all3_ok _ H4 bp) as H5. cbv beta in H5.
+  pose proof (all3_ok _ H5 bs) as H6. cbv beta in H6.
+  pose proof (all2_ok _ H6 cn) as H7. cbv beta in H7.
+  pose proof (all3_ok _ H7 wp) as H8. cbv beta in H8.
+  exact (all2_ok _ H8 wb).
+Qed.
+
+(** abstract transfer of every atomic step at the CID it touches *)
+Lemma a_want : forall tb sh r pp ps bp bs cn wp wb, invb sh r pp ps bp bs cn wp wb = true ->
+  invb sh r (a_add pp tb) ps bp bs false (match wp with TB => TB | _ => if tb then TB else TH end) wb = true.
+Proof.
+  intros tb sh r pp ps bp bs cn wp wb HI.
+  assert (HH : implb (invb sh r pp ps bp bs cn wp wb)
+    (invb sh r (a_add pp tb) ps bp bs false (match wp with TB => TB | _ => if tb then TB else TH end) wb) = true).
+  { assert (C : chk (fun sh r pp ps bp bs cn wp wb => all2 (fun tb => implb (invb sh r pp ps bp bs cn wp wb)
+      (invb sh r (a_add pp tb) ps bp bs false (match wp with TB => TB | _ => if tb then TB else TH end) wb))) = true)
+      by (vm_compute; reflexivity).
+    exact (all2_ok _ (chk_ok _ C sh r pp ps bp bs cn wp wb) tb). }
+  rewrite HI in HH. exact HH.
+Qed.
+
+Lemma a_bcast : forall sh r pp ps bp bs cn wp wb, invb sh r pp ps bp bs cn wp wb = true ->
+  invb sh r pp ps (a_add bp false) bs false wp true = true.
+Proof.
+  intros sh r pp ps bp bs cn wp wb HI.
+  assert (HH : implb (invb sh r pp ps bp bs cn wp wb) (invb sh r pp ps (a_add bp false) bs false wp true) = true).
+  { apply (chk_ok (fun sh r pp ps bp bs cn wp wb => implb (invb sh r pp ps bp bs cn wp wb)
+      (invb sh r pp ps (a_add bp false) bs false wp true))). vm_compute. reflexivity. }
+  rewrite HI in HH. exact HH.
+Qed.
+
+Lemma a_cancel : forall sh r pp ps bp bs cn wp wb, invb sh r pp ps bp bs cn wp wb = true ->
+  invb sh r TN TN TN TN (if nz r then true else cn) TN false = true.
+Proof.
+  intros sh r pp ps bp bs cn wp wb HI.
+  assert (HH : implb (invb sh r pp ps bp bs cn wp wb) (invb sh r TN TN TN TN (if nz r then true else cn) TN false) = true).
+  { apply (chk_ok (fun sh r pp ps bp bs cn wp wb => implb (invb sh r pp ps bp bs cn wp wb)
+      (invb sh r TN TN TN TN (if nz r then true else cn) TN false))). vm_compute. reflexivity. }
+  rewrite HI in HH. exact HH.
+Qed.
+
+Lemma a_purge : forall r pp ps bp bs cn wp wb, invb false r pp ps bp bs cn wp wb = true ->
+  invb false r (fst (a_rem pp true)) (fst (a_rem ps true)) bp bs cn wp wb = true.
+Proof.
+  intros r pp ps bp bs cn wp wb HI.
+  assert (HH : implb (invb false r pp ps bp bs cn wp wb)
+    (invb false r (fst (a_rem pp true)) (fst (a_rem ps true)) bp bs cn wp wb) = true).
+  { assert (C : chk (fun sh r pp ps bp bs cn wp wb => implb (invb false r pp ps bp bs cn wp wb)
+      (invb false r (fst (a_rem pp true)) (fst (a_rem ps true)) bp bs cn wp wb)) = true) by (vm_compute; reflexivity).
+    exact (chk_ok _ C true r pp ps bp bs cn wp wb). }
+  rewrite HI in HH. exact HH.
+Qed.
+
+Lemma a_mc : forall sh r pp ps bp bs wp wb, invb sh r pp ps bp bs true wp wb = true ->
+  invb sh TN pp ps bp bs false wp wb = true.
+Proof.
+  intros sh r pp ps bp bs wp wb HI.
+  assert (HH : implb (invb sh r pp ps bp bs true wp wb) (invb sh TN pp ps bp bs false wp wb) = true).
+  { assert (C : chk (fun sh r pp ps bp bs cn wp wb => implb (invb sh r pp ps bp bs true wp wb)
+      (invb sh TN pp ps bp bs false wp wb)) = true) by (vm_compute; reflexivity).
+    exact (chk_ok _ C sh r pp ps bp bs true wp wb). }
+  rewrite HI in HH. exact HH.
+Qed.
+
+(** a peer candidate of type Block ([tb]) or Have that passed markSent *)
+Lemma a_mp : forall tb sh r pp ps bp bs cn wp wb, invb sh r pp ps bp bs cn wp wb = true ->
+  snd (a_rem pp (negb tb)) = true ->
+  invb sh (a_add r tb) TN (a_add ps tb) bp bs cn wp wb = true.
+Proof.
+  intros tb sh r pp ps bp bs cn wp wb HI HR.
+  assert (HH : implb (invb sh r pp ps bp bs cn wp wb && snd (a_rem pp (negb tb)))
+    (invb sh (a_add r tb) TN (a_add ps tb) bp bs cn wp wb) = true).
+  { assert (C : chk (fun sh r pp ps bp bs cn wp wb => all2 (fun tb =>
+      implb (invb sh r pp ps bp bs cn wp wb && snd (a_rem pp (negb tb)))
+            (invb sh (a_add r tb) TN (a_add ps tb) bp bs cn wp wb))) = true) by (vm_compute; reflexivity).
+    exact (all2_ok _ (chk_ok _ C sh r pp ps bp bs cn wp wb) tb). }
+  rewrite HI, HR in HH. exact HH.
+Qed.
+
+Lemma a_mb : forall th sh r pp ps bp bs cn wp wb, invb sh r pp ps bp bs cn wp wb = true ->
+  snd (a_rem bp th) = true ->
+  forall tb, invb sh (a_add r (negb sh)) pp ps TN (a_add bs tb) cn wp wb = true.
+Proof.
+  intros th sh r pp ps bp bs cn wp wb HI HR tb.
+  assert (HH : implb (invb sh r pp ps bp bs cn wp wb && snd (a_rem bp th))
+    (invb sh (a_add r (negb sh)) pp ps TN (a_add bs tb) cn wp wb) = true).
+  { assert (C : chk (fun sh r pp ps bp bs cn wp wb => all2 (fun th => all2 (fun tb =>
+      implb (invb sh r pp ps bp bs cn wp wb && snd (a_rem bp th))
+            (invb sh (a_add r (negb sh)) pp ps TN (a_add bs tb) cn wp wb)))) = true) by (vm_compute; reflexivity).
+    exact (all2_ok _ (all2_ok _ (chk_ok _ C sh r pp ps bp bs cn wp wb) th) tb). }
+  rewrite HI, HR in HH. exact HH.
+Qed.
+
+Lemma a_rp : forall sh r pp ps bp bs cn wp wb, invb sh r pp ps bp bs cn wp wb = true ->
+  invb sh r (if nz ps then a_add pp (isB ps) else pp) TN bp bs cn wp wb = true.
+Proof.
+  intros sh r pp ps bp bs cn wp wb HI.
+  assert (HH : implb (invb sh r pp ps bp bs cn wp wb)
+    (invb sh r (if nz ps then a_add pp (isB ps) else pp) TN bp bs cn wp wb) = true).
+  { assert (C : chk (fun sh r pp ps bp bs cn wp wb => implb (invb sh r pp ps bp bs cn wp wb)
+      (invb sh r (if nz ps then a_add pp (isB ps) else pp) TN bp bs cn wp wb)) = true) by (vm_compute; reflexivity).
+    exact (chk_ok _ C sh r pp ps bp bs cn wp wb). }
+  rewrite HI in HH. exact HH.
+Qed.
+Lemma a_rb : forall sh r pp ps bp bs cn wp wb, invb sh r pp ps bp bs cn wp wb = true ->
+  invb sh r pp ps (if nz bs then a_add bp (isB bs) else bp) TN cn wp wb = true.
+Proof.
+  intros sh r pp ps bp bs cn wp wb HI.
+  assert (HH : implb (invb sh r pp ps bp bs cn wp wb)
+    (invb sh r pp ps (if nz bs then a_add bp (isB bs) else bp) TN cn wp wb) = true).
+  { assert (C : chk (fun sh r pp ps bp bs cn wp wb => implb (invb sh r pp ps bp bs cn wp wb)
+      (invb sh r pp ps (if nz bs then a_add bp (isB bs) else bp) TN cn wp wb)) = true) by (vm_compute; reflexivity).
+    exact (chk_ok _ C sh r pp ps bp bs cn wp wb). }
+  rewrite HI in HH. exact HH.
+Qed.
+
+(** ---------- concrete views ---------- *)
+Definition vw (l : wl) (c : Z) : ty := abs (wtype l c).
+Definition vg (l : list (Z * Z)) (c : Z) : ty := abs (zget c l).
+
+Definition Inv (sh : bool) (s : st) : Prop :=
+  forall c, invb sh (vw (r_wl s) c) (vw (pp s) c) (vw (ps s) c) (vw (bp s) c) (vw (bs s) c)
+                 (smem c (cn s)) (vg (g_wp s) c) (smem c (g_wb s)) = true.
+
+Lemma vw_add_same : forall l c p t, vw (wl_add c p t l) c = a_add (vw l c) (t =? TBlock).
+Proof.
+  intros l c p t. unfold vw. rewrite wtype_add_same. destruct (wtype l c) as [t0|]; cbn [abs a_add].
+  - destruct (t0 =? TBlock) eqn:E0; cbn [orb abs a_add]; [rewrite E0; reflexivity|].
+    destruct (t =? THave) eqn:E1; cbn [abs].
+    + rewrite E0. apply Z.eqb_eq in E1. subst t. reflexivity.
+    + destruct (t =? TBlock) eqn:E2.
+      * reflexivity.
+      * (* t is neither: the entry becomes t, still "other" *) reflexivity.
+  - destruct (t =? TBlock); reflexivity.
+Qed.
+Lemma vw_add_other : forall l c c' p t, c <> c' -> vw (wl_add c p t l) c' = vw l c'.
+Proof. intros. unfold vw. rewrite wtype_add_other by assumption. reflexivity. Qed.
+Lemma vw_del_same : forall l c, vw (zdel c l) c = TN.
+Proof. intros. unfold vw. rewrite wtype_del_same. reflexivity. Qed.
+Lemma vw_del_other : forall l c c', c <> c' -> vw (zdel c l) c' = vw l c'.
+Proof. intros. unfold vw. rewrite wtype_del_other by assumption. reflexivity. Qed.
+
+Lemma vw_rem : forall l c t,
+  snd (wl_remtype c t l) = snd (a_rem (vw l c) (t =? THave)) /\
+  vw (fst (wl_remtype c t l)) c = fst (a_rem (vw l c) (t =? THave)) /\
+  (forall c', c <> c' -> vw (fst (wl_remtype c t l)) c' = vw l c').
+Proof.
+  intros l c t. pose proof (remtype_spec l c t) as HS. unfold vw at 1 3. unfold vw at 3.
+  destruct (wtype l c) as [t0|] eqn:E.
+  - cbn [abs]. destruct (t0 =? TBlock) eqn:E0; cbn [andb a_rem] in *.
+    + destruct (t =? THave); rewrite HS; cbn [fst snd].
+      * split; [reflexivity|]. split; [unfold vw; rewrite E; cbn [abs]; rewrite E0; reflexivity | reflexivity].
+      * split; [reflexivity|]. split; [apply vw_del_same | intros; apply vw_del_other; assumption].
+    + rewrite HS; cbn [fst snd]. split; [reflexivity|]. split; [apply vw_del_same | intros; apply vw_del_other; assumption].
+  - rewrite HS; cbn [abs a_rem fst snd]. split; [reflexivity|]. split; [unfold vw; rewrite E; reflexivity | reflexivity].
+Qed.
+
+Lemma vg_set_same : forall l c v, vg (zset c v l) c = abs (Some v).
+Proof. intros. unfold vg. rewrite zget_zset_same. reflexivity. Qed.
+Lemma vg_set_other : forall l c c' v, c <> c' -> vg (zset c v l) c' = vg l c'.
+Proof. intros. unfold vg. rewrite zget_zset_other by assumption. reflexivity. Qed.
+Lemma vg_del_same : forall l c, vg (zdel c l) c = TN.
+Proof. intros. unfold vg. rewrite zget_zdel_same. reflexivity. Qed.
+Lemma vg_del_other : forall l c c', c <> c' -> vg (zdel c l) c' = vg l c'.
+Proof. intros. unfold vg. rewrite zget_zdel_other by assumption. reflexivity. Qed.
+
+Lemma zhas_nz : forall (l : wl) c, zhas c l = nz (vw l c).
+Proof. intros. unfold zhas, vw, wtype. destruct (zget c l) as [[p t]|]; cbn [abs nz]; [destruct (t =? TBlock)|]; reflexivity. Qed.
+
+(** ---------- every atomic step of the fixed model preserves the invariant ---------- *)
+Ltac other_cid HN :=
+  rewrite ?vw_add_other, ?vw_del_other, ?vg_set_other, ?vg_del_other, ?smem_srem_other, ?smem_sadd_other
+    by exact HN.
+
+Section Steps.
+  Variable sh : bool.
+
+  Lemma stronger_abs : forall o t,
+    abs (Some (stronger o t)) = match abs o with TB => TB | _ => if t =? TBlock then TB else TH end.
+  Proof.
+    intros o t. destruct o as [t0|]; cbn [stronger abs]; [|reflexivity].
+    destruct (t0 =? TBlock) eqn:E; cbn [abs]; [|reflexivity]. reflexivity.
+  Qed.
+
+  Lemma inv_want : forall c0 t s, Inv sh s -> Inv sh (do_want c0 t s).
+  Proof.
+    intros c0 t s HI c. unfold do_want; cbn [pp ps bp bs cn r_wl g_wp g_wb].
+    destruct (Z.eq_dec c0 c) as [HE|HN].
+    - subst c0. rewrite vw_add_same, smem_srem_same, vg_set_same, stronger_abs.
+      apply a_want with (cn := smem c (cn s)). apply HI.
+    - other_cid HN. apply HI.
+  Qed.
+
+  Lemma inv_bcast : forall c0 s, Inv sh s -> Inv sh (do_bcast c0 s).
+  Proof.
+    intros c0 s HI c. unfold do_bcast; cbn [pp ps bp bs cn r_wl g_wp g_wb].
+    destruct (Z.eq_dec c0 c) as [HE|HN].
+    - subst c0. rewrite vw_add_same, smem_srem_same, smem_sadd_same.
+      change (THave =? TBlock) with false.
+      apply a_bcast with (cn := smem c (cn s)) (wb := smem c (g_wb s)). apply HI.
+    - other_cid HN. apply HI.
+  Qed.
+
+  Lemma inv_cancel : forall c0 s, Inv sh s -> Inv sh (do_cancel fixed_flags c0 s).
+  Proof.
+    intros c0 s HI c. unfold do_cancel; cbn [f_forget fixed_flags pp ps bp bs cn r_wl g_wp g_wb].
+    destruct (Z.eq_dec c0 c) as [HE|HN].
+    - subst c0. rewrite !vw_del_same, vg_del_same, smem_srem_same.
+      replace (smem c (if zhas c (r_wl s) then sadd c (cn s) else cn s))
+        with (if nz (vw (r_wl s) c) then true else smem c (cn s)).
+      + eapply a_cancel. apply HI.
+      + rewrite zhas_nz. destruct (nz (vw (r_wl s) c)); [rewrite smem_sadd_same|]; reflexivity.
+    - other_cid HN.
+      replace (smem c (if zhas c0 (r_wl s) then sadd c0 (cn s) else cn s)) with (smem c (cn s)).
+      + apply HI.
+      + destruct (zhas c0 (r_wl s)); [rewrite smem_sadd_other by exact HN|]; reflexivity.
+  Qed.
+
+  Lemma inv_purge : forall c0 s, Inv sh s -> Inv sh (do_purge sh c0 s).
+  Proof.
+    intros c0 s HI c. unfold do_purge. destruct sh eqn:Esh; [apply HI|].
+    cbn [pp ps bp bs cn r_wl g_wp g_wb].
+    destruct (vw_rem (pp s) c0 THave) as (_ & P2 & P3). destruct (vw_rem (ps s) c0 THave) as (_ & S2 & S3).
+    change (THave =? THave) with true in *.
+    destruct (Z.eq_dec c0 c) as [HE|HN].
+    - subst c0. rewrite P2, S2. apply a_purge. apply HI.
+    - rewrite P3, S3 by exact HN. apply HI.
+  Qed.
+
+  Lemma inv_mc : forall c0 s, Inv sh s -> Inv sh (mc s c0).
+  Proof.
+    intros c0 s HI c. unfold mc. destruct (smem c0 (cn s)) eqn:E; [|apply HI].
+    cbn [pp ps bp bs cn r_wl g_wp g_wb].
+    destruct (Z.eq_dec c0 c) as [HE|HN].
+    - subst c0. rewrite vw_del_same, smem_srem_same. pose proof (HI c) as HC. rewrite E in HC. eapply a_mc. exact HC.
+    - other_cid HN. apply HI.
+  Qed.
+
+  Definition ty01 (t : Z) : Prop := t = TBlock \/ t = THave.
+
+  Lemma inv_mp : forall e s, ty01 (snd (snd e)) -> Inv sh s -> Inv sh (mp s e).
+  Proof.
+    intros [c0 [p t]] s Ht HI c. cbn [snd] in Ht. unfold mp.
+    destruct (vw_rem (pp s) c0 t) as (P1 & P2 & P3).
+    destruct (wl_remtype c0 t (pp s)) as [pend1 ok] eqn:ER. cbn [fst snd] in P1, P2, P3.
+    destruct ok; [|apply HI]. cbn [pp ps bp bs cn r_wl g_wp g_wb].
+    assert (Eth : (t =? THave) = negb (t =? TBlock)) by (destruct Ht; subst t; reflexivity).
+    destruct (Z.eq_dec c0 c) as [HE|HN].
+    - subst c0. rewrite !vw_add_same, P2.
+      assert (Ef : fst (a_rem (vw (pp s) c) (t =? THave)) = TN).
+      { destruct (vw (pp s) c), (t =? THave); cbn in P1 |- *; congruence. }
+      rewrite Ef. apply a_mp with (pp := vw (pp s) c); [apply HI|]. rewrite <- Eth. symmetry. exact P1.
+    - other_cid HN. rewrite P3 by exact HN. apply HI.
+  Qed.
+
+  Lemma inv_mb : forall e s, Inv sh s -> Inv sh (mb sh s e).
+  Proof.
+    intros [c0 [p t]] s HI c. unfold mb.
+    destruct (vw_rem (bp s) c0 t) as (P1 & P2 & P3).
+    destruct (wl_remtype c0 t (bp s)) as [pend1 ok] eqn:ER. cbn [fst snd] in P1, P2, P3.
+    destruct ok; [|apply HI]. cbn [pp ps bp bs cn r_wl g_wp g_wb].
+    destruct (Z.eq_dec c0 c) as [HE|HN].
+    - subst c0. rewrite !vw_add_same, P2.
+      assert (Ef : fst (a_rem (vw (bp s) c) (t =? THave)) = TN).
+      { destruct (vw (bp s) c), (t =? THave); cbn in P1 |- *; congruence. }
+      rewrite Ef.
+      replace (bcst_type sh =? TBlock) with (negb sh) by (unfold bcst_type; destruct sh; reflexivity).
+      apply a_mb with (th := t =? THave) (bp := vw (bp s) c); [apply HI | symmetry; exact P1].
+    - other_cid HN. rewrite P3 by exact HN. apply HI.
+  Qed.
+
+  Lemma isB_abs : forall t, isB (abs (Some t)) = (t =? TBlock).
+  Proof. intro t. cbn [abs]. destruct (t =? TBlock); reflexivity. Qed.
+
+  Lemma inv_refresh_peer : forall pl s, Inv sh s ->
+    Inv sh (mkst (fst (refresh pl (pp s) (ps s))) (snd (refresh pl (pp s) (ps s))) (bp s) (bs s)
+                 (cn s) (prio s) (r_wl s) (g_wp s) (g_wb s)).
+  Proof.
+    induction pl as [|c0 r IH]; intros s HI; cbn [refresh fst snd].
+    - destruct s; exact HI.
+    - destruct (zget c0 (ps s)) as [[p t]|] eqn:E; [|apply IH; exact HI].
+      specialize (IH (mkst (wl_add c0 p t (pp s)) (zdel c0 (ps s)) (bp s) (bs s) (cn s) (prio s) (r_wl s) (g_wp s) (g_wb s))).
+      cbn [pp ps bp bs cn prio r_wl g_wp g_wb] in IH. apply IH.
+      intro c. cbn [pp ps bp bs cn r_wl g_wp g_wb].
+      destruct (Z.eq_dec c0 c) as [HE|HN].
+      + subst c0. rewrite vw_add_same, vw_del_same.
+        assert (Ev : vw (ps s) c = abs (Some t)) by (unfold vw, wtype; rewrite E; reflexivity).
+        pose proof (a_rp _ _ _ _ _ _ _ _ _ (HI c)) as HR. rewrite Ev in HR.
+        assert (Enz : nz (abs (Some t)) = true) by (cbn [abs]; destruct (t =? TBlock); reflexivity).
+        rewrite Enz, isB_abs in HR. exact HR.
+      + other_cid HN. apply HI.
+  Qed.
+
+  Lemma inv_refresh_bcst : forall bl s, Inv sh s ->
+    Inv sh (mkst (pp s) (ps s) (fst (refresh bl (bp s) (bs s))) (snd (refresh bl (bp s) (bs s)))
+                 (cn s) (prio s) (r_wl s) (g_wp s) (g_wb s)).
+  Proof.
+    induction bl as [|c0 r IH]; intros s HI; cbn [refresh fst snd].
+    - destruct s; exact HI.
+    - destruct (zget c0 (bs s)) as [[p t]|] eqn:E; [|apply IH; exact HI].
+      specialize (IH (mkst (pp s) (ps s) (wl_add c0 p t (bp s)) (zdel c0 (bs s)) (cn s) (prio s) (r_wl s) (g_wp s) (g_wb s))).
+      cbn [pp ps bp bs cn prio r_wl g_wp g_wb] in IH. apply IH.
+      intro c. cbn [pp ps bp bs cn r_wl g_wp g_wb].
+      destruct (Z.eq_dec c0 c) as [HE|HN].
+      + subst c0. rewrite vw_add_same, vw_del_same.
+        assert (Ev : vw (bs s) c = abs (Some t)) by (unfold vw, wtype; rewrite E; reflexivity).
+        pose proof (a_rb _ _ _ _ _ _ _ _ _ (HI c)) as HR. rewrite Ev in HR.
+        assert (Enz : nz (abs (Some t)) = true) by (cbn [abs]; destruct (t =? TBlock); reflexivity).
+        rewrite Enz, isB_abs in HR. exact HR.
+      + other_cid HN. apply HI.
+  Qed.
+
+  (** candidate types of a send are want-block / want-have (the only two the queue uses) *)
+  Definition step_ok (x : step) : Prop :=
+    match x with
+    | SSend _ pes _ => Forall (fun e : Z * went => ty01 (snd (snd e))) pes
+    | _ => True
+    end.
+
+  Lemma fold_inv : forall {A} (f : st -> A -> st) (P : A -> Prop) l s,
+    (forall a s, P a -> Inv sh s -> Inv sh (f s a)) -> Forall P l -> Inv sh s -> Inv sh (fold_left f l s).
+  Proof.
+    intros A f P l. induction l as [|a r IH]; intros s Hf HP HI; cbn [fold_left]; [exact HI|].
+    inversion HP; subst. apply IH; [exact Hf | assumption | apply Hf; assumption].
+  Qed.
+
+  Lemma Forall_True : forall {A} (l : list A), Forall (fun _ => True) l.
+  Proof. intros A l. apply Forall_forall. intros; exact I. Qed.
+
+  Theorem step_inv : forall s x, step_ok x -> Inv sh s -> Inv sh (do_step fixed_flags sh s x).
+  Proof.
+    intros s x Hok HI. destruct x as [c t|c|c|c|cs pes bes|pl bl]; cbn [do_step].
+    - apply inv_want; exact HI.
+    - apply inv_bcast; exact HI.
+    - apply inv_cancel; exact HI.
+    - apply inv_purge; exact HI.
+    - rewrite send_fixed_micro.
+      apply (fold_inv (mb sh) (fun _ => True)); [intros; apply inv_mb; assumption | apply Forall_True|].
+      apply (fold_inv mp (fun e => ty01 (snd (snd e)))); [intros; apply inv_mp; assumption | exact Hok|].
+      apply (fold_inv mc (fun _ => True)); [intros; apply inv_mc; assumption | apply Forall_True | exact HI].
+    - pose proof (inv_refresh_peer pl s HI) as H1.
+      destruct (refresh pl (pp s) (ps s)) as [pp1 ps1]. cbn [fst snd] in H1.
+      pose proof (inv_refresh_bcst bl _ H1) as H2. cbn [pp ps bp bs cn prio r_wl g_wp g_wb] in H2.
+      destruct (refresh bl (bp s) (bs s)) as [bp1 bs1]. exact H2.
+  Qed.
+
+  Lemma inv_init : Inv sh init.
+  Proof. intro c. destruct sh; reflexivity. Qed.
+
+  Theorem run_inv : forall xs s, Forall step_ok xs -> Inv sh s -> Inv sh (run fixed_flags sh s xs).
+  Proof.
+    induction xs as [|x r IH]; intros s Hok HI; cbn [run fold_left]; [exact HI|].
+    inversion Hok; subst. apply IH; [assumption | apply step_inv; assumption].
+  Qed.
+End Steps.
+
+(** ---------- idle = converged ---------- *)
+Lemma a_idle : forall sh r ps bs wp wb, invb sh r TN ps TN bs false wp wb = true ->
+  (implb (nz r) (nz wp || wb) &&
+   implb ((if sh then nz wp else isB wp) || wb) (nz r) &&
+   implb (isB wp) (isB r)) = true.
+Proof.
+  intros sh r ps bs wp wb HI.
+  assert (HH : implb (invb sh r TN ps TN bs false wp wb)
+    (implb (nz r) (nz wp || wb) && implb ((if sh then nz wp else isB wp) || wb) (nz r) && implb (isB wp) (isB r)) = true).
+  { assert (C : chk (fun sh r pp ps bp bs cn wp wb => implb (invb sh r TN ps TN bs false wp wb)
+      (implb (nz r) (nz wp || wb) && implb ((if sh then nz wp else isB wp) || wb) (nz r) && implb (isB wp) (isB r))) = true)
+      by (vm_compute; reflexivity).
+    exact (chk_ok _ C sh r TN ps TN bs false wp wb). }
+  rewrite HI in HH. exact HH.
+Qed.
+
+Theorem idle_converged : forall sh s univ, Inv sh s -> idle s -> convergedb sh univ s = true.
+Proof.
+  intros sh s univ HI (Epp & Ebp & Ecn). unfold convergedb. apply forallb_forall. intros c _.
+  pose proof (HI c) as HC. rewrite Epp, Ebp, Ecn in HC.
+  change (vw [] c) with TN in HC. change (smem c []) with false in HC.
+  apply a_idle in HC.
+  assert (Ew : wanted s c = nz (vg (g_wp s) c) || smem c (g_wb s)).
+  { unfold wanted, zhas, vg. destruct (zget c (g_wp s)) as [t|]; cbn [abs nz]; [destruct (t =? TBlock)|]; reflexivity. }
+  assert (Ee : expected sh s c = (if sh then nz (vg (g_wp s) c) else isB (vg (g_wp s) c)) || smem c (g_wb s)).
+  { unfold expected, zhas, vg. destruct (zget c (g_wp s)) as [t|]; cbn [abs nz isB]; destruct sh; try reflexivity;
+      destruct (t =? TBlock); reflexivity. }
+  rewrite Ew, Ee, zhas_nz.
+  apply andb_true_iff in HC. destruct HC as [HC H3]. apply andb_true_iff in HC. destruct HC as [H1 H2].
+  apply andb_true_iff. split; [apply andb_true_iff; split|].
+  - destruct (nz (vw (r_wl s) c)); [exact H1 | reflexivity].
+  - destruct ((if sh then nz (vg (g_wp s) c) else isB (vg (g_wp s) c)) || smem c (g_wb s)); [exact H2 | reflexivity].
+  - unfold vg in H3. unfold peer_type. unfold vw, wtype in H3.
+    destruct (zget c (g_wp s)) as [t|]; [|reflexivity]. cbn [abs] in H3.
+    destruct (t =? TBlock); [|reflexivity]. cbn [isB implb] in H3.
+    destruct (zget c (r_wl s)) as [[p' t']|]; cbn [abs isB] in H3; [|discriminate].
+    destruct (t' =? TBlock); [reflexivity | discriminate].
+Qed.
+
+(** ---------- one unlimited send empties the queue ---------- *)
+Definition keyout (D : list Z) (e : Z * went) : bool := negb (smem (fst e) D).
+
+Lemma zget_filter_none : forall (l : wl) D c, smem c D = true -> zget c (filter (keyout D) l) = None.
+Proof.
+  induction l as [|[k v] r IH]; intros D c HD; cbn [filter]; [reflexivity|].
+  match goal with |- context [if ?b then _ else _] => assert (Ek : b = negb (smem k D)) by reflexivity; rewrite Ek end.
+  destruct (smem k D) eqn:E; cbn [negb]; [apply IH; exact HD|].
+  cbn [zget]. destruct (c =? k) eqn:Eck; [apply Z.eqb_eq in Eck; subst; congruence | apply IH; exact HD].
+Qed.
+
+Lemma keyout_cons : forall D c e, keyout (c :: D) e = negb (fst e =? c) && keyout D e.
+Proof. intros. unfold keyout. cbn [smem existsb]. rewrite negb_orb. reflexivity. Qed.
+
+Lemma zdel_filter : forall (l : wl) D c, zdel c (filter (keyout D) l) = filter (keyout (c :: D)) l.
+Proof.
+  induction l as [|[k v] r IH]; intros D c; cbn [filter]; [reflexivity|].
+  rewrite keyout_cons. cbn [fst].
+  destruct (keyout D (k, v)) eqn:E.
+  - rewrite andb_true_r. cbn [zdel]. rewrite (Z.eqb_sym c k).
+    destruct (k =? c); cbn [negb]; [apply IH | f_equal; apply IH].
+  - rewrite andb_false_r. apply IH.
+Qed.
+
+Lemma mark_all : forall es D sent,
+  fst (fst (fst (mark es (filter (keyout D) es) sent))) = [].
+Proof.
+  induction es as [|[c [p t]] r IH]; intros D sent; [reflexivity|].
+  cbn [filter]. match goal with |- context [if ?b then _ else _] => assert (Ek : b = negb (smem c D)) by reflexivity; rewrite Ek end.
+  destruct (smem c D) eqn:E; cbn [negb].
+  - cbn [mark]. unfold wl_remtype. rewrite zget_filter_none by exact E.
+    specialize (IH D sent). destruct (mark r (filter (keyout D) r) sent) as [[[a b] c'] d]. exact IH.
+  - cbn [mark]. unfold wl_remtype. cbn [zget]. rewrite Z.eqb_refl.
+    assert (Et : (t =? TBlock) && (t =? THave) = false).
+    { destruct (t =? TBlock) eqn:E1; [apply Z.eqb_eq in E1; subst t; reflexivity | reflexivity]. }
+    rewrite Et. cbn [zdel]. rewrite Z.eqb_refl. rewrite zdel_filter.
+    specialize (IH (c :: D) (wl_add c p t sent)).
+    destruct (mark r (filter (keyout (c :: D)) r) (wl_add c p t sent)) as [[[a b] c'] d]. exact IH.
+Qed.
+
+Lemma filter_keyout_nil : forall (l : wl), filter (keyout []) l = l.
+Proof. induction l as [|e r IH]; cbn [filter keyout smem existsb negb]; [reflexivity | rewrite IH; reflexivity]. Qed.
+
+Definition sout (D : list Z) (x : Z) : bool := negb (smem x D).
+Lemma sout_cons : forall D c x, sout (c :: D) x = negb (x =? c) && sout D x.
+Proof. intros. unfold sout. cbn [smem existsb]. rewrite negb_orb. reflexivity. Qed.
+Lemma srem_filter : forall l D c, srem c (filter (sout D) l) = filter (sout (c :: D)) l.
+Proof.
+  induction l as [|k r IH]; intros D c; cbn [filter]; [reflexivity|].
+  rewrite sout_cons. destruct (sout D k) eqn:E.
+  - rewrite andb_true_r. unfold srem at 1. cbn [filter]. fold (srem c (filter (sout D) r)).
+    rewrite (Z.eqb_sym c k). destruct (k =? c); cbn [negb]; [apply IH | f_equal; apply IH].
+  - rewrite andb_false_r. apply IH.
+Qed.
+Lemma smem_filter_false : forall l D c, smem c D = true -> smem c (filter (sout D) l) = false.
+Proof.
+  induction l as [|k r IH]; intros D c HD; cbn [filter]; [reflexivity|].
+  assert (Ek : sout D k = negb (smem k D)) by reflexivity. rewrite Ek.
+  destruct (smem k D) eqn:E; cbn [negb]; [apply IH; exact HD|].
+  cbn [smem existsb]. destruct (c =? k) eqn:Eck; [apply Z.eqb_eq in Eck; subst; congruence | apply IH; exact HD].
+Qed.
+Lemma mark_cancels_all : forall cs D, fst (fst (mark_cancels cs (filter (sout D) cs))) = [].
+Proof.
+  induction cs as [|c r IH]; intro D; [reflexivity|].
+  cbn [filter]. assert (Ek : sout D c = negb (smem c D)) by reflexivity. rewrite Ek.
+  destruct (smem c D) eqn:E; cbn [negb].
+  - cbn [mark_cancels]. rewrite smem_filter_false by exact E.
+    specialize (IH D). destruct (mark_cancels r (filter (sout D) r)) as [[a b] d]. exact IH.
+  - cbn [mark_cancels]. cbn [smem existsb]. rewrite Z.eqb_refl. cbn [orb].
+    unfold srem at 1. cbn [filter]. rewrite Z.eqb_refl. cbn [negb].
+    fold (srem c (filter (sout D) r)). rewrite srem_filter.
+    specialize (IH (c :: D)). destruct (mark_cancels r (filter (sout (c :: D)) r)) as [[a b] d]. exact IH.
+Qed.
+Lemma filter_sout_nil : forall l, filter (sout []) l = l.
+Proof. induction l as [|e r IH]; cbn [filter sout smem existsb negb]; [reflexivity | rewrite IH; reflexivity]. Qed.
+
+Theorem flush_idle : forall fl sh s, idleb (flush fl sh s) = true.
+Proof.
+  intros fl sh s. unfold flush.
+  set (s1 := run fl sh s _). cbn [do_step]. unfold send_result.
+  pose proof (mark_all (pp s1) [] (ps s1)) as HP. rewrite filter_keyout_nil in HP.
+  destruct (mark (pp s1) (pp s1) (ps s1)) as [[[pp1 ps1] okp] badp]. cbn [fst] in HP. subst pp1.
+  pose proof (mark_all (bp s1) [] (bs s1)) as HB. rewrite filter_keyout_nil in HB.
+  destruct (mark (bp s1) (bp s1) (bs s1)) as [[[bp1 bs1] okb] badb]. cbn [fst] in HB. subst bp1.
+  pose proof (mark_cancels_all (cn s1) []) as HC. rewrite filter_sout_nil in HC.
+  destruct (mark_cancels (cn s1) (cn s1)) as [[cn1 okc] badc]. cbn [fst] in HC. subst cn1.
+  reflexivity.
+Qed.
